@@ -156,6 +156,10 @@ class Reader(object):
                     data, converted = self.raw_decode(self.raw_buffer,
                             'strict', self.eof)
                 except UnicodeDecodeError as exc:
+                    # Report an unacceptable character that precedes the
+                    # undecodable byte first, whatever the chunking.
+                    self.check_printable(self.raw_decode(
+                            self.raw_buffer[:exc.start], 'strict', False)[0])
                     character = self.raw_buffer[exc.start]
                     if self.stream is not None:
                         position = self.stream_pointer-len(self.raw_buffer)+exc.start
